@@ -42,6 +42,8 @@ func scenarios(tier string) []svc.Scenario {
 		{Name: "bad-capture", Program: []string{"import:P1", "import:BAD+P2", "view.open:v1", "import:EMPTY+P3"}},
 		// a converter is attached while imports, tagging and a merge are in flight
 		{Name: "converter-attached-late", Converter: true, Program: []string{"import:P1", "addtag:tag/p=cport:1", "import:P2", "converters:tag/p=conv"}},
+		// a tag that refers to another tag from a sub-query: evaluated for all streams or none
+		{Name: "subquery-tag", Program: []string{"import:P1+P2", "addtag:tag/b=cport:1", "addtag:tag/t=@sub:tag:b sport:@sub:sport@", "import:P3", "import:P4"}},
 		{Name: "two-tags", Program: []string{"addtag:tag/p=cport:1", "addtag:tag/d=cdata:foo3", "import:P1", "import:P3"}},
 	}
 	if tier == "thorough" {
